@@ -468,6 +468,8 @@ class FnEmitter:
         if nm == 'kMaxSize':
             return {'uint8_t': '((uint8_t)255)', 'uint16_t': '((uint16_t)65535)', 'uint32_t': '((uint32_t)4294967295U)',
                     'uint64_t': '((uint64_t)18446744073709551615UL)', 'int8_t': '((int8_t)127)'}[ct]
+        if nm == 'nullopt':
+            return '(struct std_nullopt_t){0}'
         if nm == 'value' and self.f.node.get('name') == 'canSwapDynStorage':
             # std::is_same<OAlloc, Alloc>::value: the two allocator types are the class's second template argument and the
             # non-builtin template argument of the member template; compared on canonical type strings
@@ -749,7 +751,7 @@ class FnEmitter:
         if may_throw:
             self.pre.append(self.exc_check())
 
-    def call(self, e, discard=False):
+    def call(self, e, discard=False, dest=None):
         k = e['kind']
         ch = children(e)
         thisarg = None
@@ -785,6 +787,7 @@ class FnEmitter:
         # ---- lowered amc function -------------------------------------------------
         if decl is not None and decl['id'] in self.L.funcs:
             f2 = self.L.funcs[decl['id']]
+            self._call_dest = dest
             # the 'basic allocator' concept is an L0 boundary (exact-size ghost semantics); amc's own SimpleAllocator is proved
             # against malloc/realloc/free in its own units
             set_boundary = (self.f.record or '').startswith('SmallSet<') and (f2.record or '').startswith('FlatSet<')
@@ -815,8 +818,25 @@ class FnEmitter:
         # use the call expression's own type (always instantiated) for the C type
         ret_ref = self.cat(e) != 'prvalue'
         ret_ct = self.ctype(e) + (' *' if ret_ref else '')
-        if self.tm.is_elem(e['type']) and not ret_ref:
-            raise Unsupported('call returning element by value needs destination')
+        try:
+            rc_ = self.tm.canon_of(e['type'])
+        except Unsupported:
+            rc_ = ''
+        if not ret_ref and self.L.needs_out(rc_):
+            dest = getattr(self, '_call_dest', None)
+            self._call_dest = None
+            tmpname = None
+            if dest is None:
+                ct_ = self.tm.ctype(rc_)
+                tmpname = self.tmp(ct_)
+                self.pre.append('L0_fresh_local(&%s, sizeof(%s));' % (tmpname, tmpname)); self.f.l0.add('L0_fresh_local')
+                dest = '&' + tmpname
+            argt.append(dest)
+            self.emit_stmt_call('%s(%s)' % (f2.cname, ', '.join(argt)), self.L.may_throw(f2))
+            if tmpname is not None:
+                self.temps_to_destroy.append((tmpname, self.tm.ctype(rc_)))
+                return tmpname
+            return ''
         text = '%s(%s)' % (f2.cname, ', '.join(argt))
         return self.emit_call(text, ret_ct, self.L.may_throw(f2), ret_ref, discard)
 
@@ -902,7 +922,13 @@ class FnEmitter:
         if thisarg is not None:
             argt.append(thisarg())
             ttag = 'SET' if this_type == 'SET' else self.tm.tag(this_type)
-            base = 'L0_%s__%s' % (ttag, re.sub(r'\W', '_', name.replace('operator()', 'call').replace('operator', 'op')))
+            opn = name
+            if name.startswith('operator'):
+                opn = 'op_' + {'()': 'call', '=': 'assign', '*': 'deref', '->': 'arrow', '==': 'eq', '!=': 'ne', '<': 'lt', '++': 'inc', '--': 'dec',
+                               '[]': 'index'}.get(name[len('operator'):].strip(), re.sub(r'\W', '_', name[len('operator'):].strip()))
+                if name.strip() == 'operator()':
+                    opn = 'call'
+            base = 'L0_%s__%s' % (ttag, re.sub(r'\W', '_', opn))
             if this_type == 'SET' and decl is not None and self.L._is_const_method(decl):
                 base += '_c'
         else:
@@ -954,6 +980,21 @@ class FnEmitter:
                 self.emit_stmt_call('%s(%s)' % (prim, ', '.join([dest] + at)), not nothrow)
                 return
             canon = self.canon_t(e)
+            if canon.startswith('std::optional<'):
+                otag = self.tm.tag(canon)
+                if len(ptypes) == 0:
+                    prim, at = 'L0_%s__ctor' % otag, []
+                elif self.tm.canon(ptypes[0]).rstrip('& ').strip() == canon:
+                    prim, at = 'L0_%s__ctor_move' % otag, [self.addr(args[0])]
+                elif self.tm.canon(ptypes[0]) == self.elem + ' &&':
+                    prim, at = 'L0_%s__ctor_from_rrE' % otag, [self.addr(args[0])]
+                elif 'nullopt' in ptypes[0]:
+                    prim, at = 'L0_%s__ctor' % otag, []
+                else:
+                    raise Unsupported('optional constructor from %s' % ptypes)
+                self.f.l0.add(prim)
+                self.emit_stmt_call('%s(%s)' % (prim, ', '.join([dest] + at)), False)
+                return
             ctor = self.L.find_ctor(canon, ptypes)
             if ctor is not None:
                 self.L.request(ctor)
@@ -966,8 +1007,14 @@ class FnEmitter:
                 return
             self.pre.append('%s = %s;' % (deref(dest), self.construct_value(e)))
             return
-        if k in ('CallExpr', 'CXXMemberCallExpr', 'CXXOperatorCallExpr') and self.tm.is_elem(e['type']):
-            raise Unsupported('element returned by value from call')
+        if k in ('CallExpr', 'CXXMemberCallExpr', 'CXXOperatorCallExpr'):
+            try:
+                rc_ = self.tm.canon_of(e['type'])
+            except Unsupported:
+                rc_ = ''
+            if self.L.needs_out(rc_):
+                self.call(e, dest=dest)
+                return
         self.pre.append('%s = %s;' % (deref(dest), self.rv(e)))
 
     def construct_value(self, e):
@@ -1053,7 +1100,7 @@ class FnEmitter:
         for l in fixed:
             out.append(ind + l)
             for t, ct in temps:
-                if re.search(r'L0_E_\w*construct\w*\(&%s\b' % t, l) or re.search(r'__ctor__\w*\(\(\w[\w ]*\*\)\(?&%s\b' % t, l):
+                if re.search(r'L0_E_\w*construct\w*\(&%s\b' % t, l) or re.search(r'__ctor__\w*\(\(\w[\w ]*\*\)\(?&%s\b' % t, l) or re.search(r'\w\([^;]*, &%s\);$' % t, l) or re.search(r'L0_optional\w*\(&%s\b' % t, l):
                     out.append(ind + 'if (!l0_exc) %s_live = 1;' % t)
         after = self.new_label('after')
         for t, ct in reversed(temps):
@@ -1072,6 +1119,9 @@ class FnEmitter:
         if ct == 'E':
             self.f.l0.add('L0_E_destroy')
             return g + 'L0_E_destroy(&%s); }' % name
+        if ct.startswith('struct optional_'):
+            self.f.l0.add('L0_%s__dtor' % ct[len('struct '):])
+            return g + 'L0_%s__dtor(&%s); }' % (ct[len('struct '):], name)
         d = self.L.find_dtor_ct(ct)
         if d is not None:
             self.L.request(d)
@@ -1234,7 +1284,7 @@ class FnEmitter:
             raise Unsupported('local array')
         ct = self.tm.ctype(canon)
         self.locals[d['id']] = (name, False)
-        if ct == 'E' or (ct.startswith('struct ') and init is not None and self.unwrap_ctor(init).get('kind') in ('CXXConstructExpr', 'CXXTemporaryObjectExpr')):
+        if ct == 'E' or (ct.startswith('struct ') and init is not None and (self.unwrap_ctor(init).get('kind') in ('CXXConstructExpr', 'CXXTemporaryObjectExpr') or self.L.needs_out(canon))):
             if d.get('nrvo') and self.ret_by_out:
                 self.nrvo.add(d['id'])
                 self.locals[d['id']] = ('ret', True)
@@ -1334,9 +1384,10 @@ class FnEmitter:
                 if re_.get('valueCategory') in ('lvalue', 'xvalue') and rq.rstrip().endswith('&'):
                     rcanon += ' &'
             self.ret_is_ref = rcanon.endswith('&')
-            if rcanon == self.elem:
+            if self.L.needs_out(rcanon):
                 self.ret_by_out = True
-                params.append('E *ret')
+                self.ret_out_ct = self.tm.ctype(rcanon)
+                params.append('%s *ret' % self.ret_out_ct)
                 rct = 'void'
             else:
                 rct = self.tm.ctype(rcanon)
@@ -1374,7 +1425,7 @@ class FnEmitter:
             for name, ct in reversed(self.scope_objs):
                 lines.append('    ' + self.destroy_text(name, ct, guard=True))
             if self.ret_by_out and self.ret_constructed:
-                lines.append('    L0_E_destroy(ret);')
+                lines.append('    ' + self.destroy_text('(*ret)', self.ret_out_ct).replace('&(*ret)', 'ret'))
             lines.append('    l0_exc = saved_exit; }')
             if noex is True:
                 self.f.l0.add('L0_terminate')
@@ -1461,6 +1512,9 @@ class FnEmitter:
             ct = self.tm.ctype(canon)
             if ct == 'E':
                 out.append('  L0_E_destroy(&self->%s);' % fd['name'])
+            elif ct.startswith('struct optional_'):
+                self.f.l0.add('L0_%s__dtor' % ct[len('struct '):])
+                out.append('  L0_%s__dtor(&self->%s);' % (ct[len('struct '):], fd['name']))
             elif ct.startswith('struct '):
                 d = L.find_dtor_ct(ct)
                 if d is not None:
@@ -1527,6 +1581,14 @@ class LoweringDriver(Lowering):
             if ps == want:
                 return f
         return None
+
+    def needs_out(self, canon):
+        """class prvalues that own elements are returned through a hidden out-parameter (constructed in place, as C++ does)"""
+        if canon == self.elem:
+            return True
+        if canon.endswith('&') or canon.endswith('*'):
+            return False
+        return canon in self.dtor_index and not canon.startswith('std::')
 
     def find_dtor_ct(self, ct):
         for canon, tag in self.tm.struct_tags.items():
